@@ -161,10 +161,12 @@ SliceVal(s, lo, hi, st) ==
   ELSE IF hi.t = "err" THEN hi ELSE IF hi.t = "skip" THEN Skip
   ELSE IF st.t = "err" THEN st ELSE IF st.t = "skip" THEN Skip
   ELSE IF ~IsSeq(s) THEN Err("TypeError")
-  ELSE IF ~(SliceBoundOk(lo) /\ SliceBoundOk(hi) /\ SliceBoundOk(st)) THEN Err("TypeError")
+  \* CPython (PySlice_Unpack) converts the step first (TypeError, then ValueError for 0), then start and stop
+  ELSE IF ~SliceBoundOk(st) THEN Err("TypeError")
   ELSE LET n == Len(s.e)
            step == IF st.t = "none" THEN 1 ELSE st.n IN
        IF step = 0 THEN Err("ValueError")
+       ELSE IF ~(SliceBoundOk(lo) /\ SliceBoundOk(hi)) THEN Err("TypeError")
        ELSE LET Clamp(b, dflt, lower, upper) ==
                   IF b.t = "none" THEN dflt
                   ELSE LET r == IF b.n < 0 THEN b.n + n ELSE b.n IN
@@ -189,19 +191,20 @@ Eval(nd, x) ==
     [] nd.k = "un"    -> UnVal(nd.op, Eval(nd.a, x))
     [] nd.k = "bin"   -> LET v == Eval(nd.a, x) IN
                          IF IsErr(v) THEN v        \* left operand is evaluated first
+                         ELSE IF IsSkip(v) THEN Skip   \* value outside the modelled fragment: Python may or may not raise here, no verdict
                          ELSE BinVal(nd.op, v, Eval(nd.b, x))
     [] nd.k = "cmp"   -> LET v == Eval(nd.es[1], x) IN
                          IF IsErr(v) THEN v ELSE IF IsSkip(v) THEN Skip
                          ELSE EvalCmp(nd, x, 1, v, FALSE)
     [] nd.k = "bool"  -> EvalBool(nd, x, 1, FALSE)
     [] nd.k = "idx"   -> LET s == Eval(nd.a, x) IN
-                         IF IsErr(s) THEN s ELSE IdxVal(s, Eval(nd.i, x))
+                         IF IsErr(s) THEN s ELSE IF IsSkip(s) THEN Skip ELSE IdxVal(s, Eval(nd.i, x))
     [] nd.k = "slice" -> LET s == Eval(nd.a, x) IN
-                         IF IsErr(s) THEN s
+                         IF IsErr(s) THEN s ELSE IF IsSkip(s) THEN Skip
                          ELSE LET lo == Eval(nd.lo, x) IN
-                              IF lo.t = "err" THEN lo
+                              IF lo.t = "err" THEN lo ELSE IF lo.t = "skip" THEN Skip
                               ELSE LET hi == Eval(nd.hi, x) IN
-                                   IF hi.t = "err" THEN hi
+                                   IF hi.t = "err" THEN hi ELSE IF hi.t = "skip" THEN Skip
                                    ELSE SliceVal(s, lo, hi, Eval(nd.st, x))
     [] nd.k = "tuple" -> EvalElts(nd.es, x, 1, <<>>)
     [] nd.k = "list"  -> LET r == EvalElts(nd.es, x, 1, <<>>) IN
